@@ -23,6 +23,18 @@ Theorem C13_balanced : forall ts : list token,
   tokens_to_operator_tree ts <> Err EUnmatchedLBrace /\ tokens_to_operator_tree ts <> Err EUnmatchedRBrace.
 Proof. exact build_balanced. Qed.
 
+(* the exact error: input that builds, followed by one more `)` (and anything after it) ... *)
+Theorem C13_unbalanced_close_exact : forall (pre post : list token) (n : node),
+  tokens_to_operator_tree pre = Ok n ->
+  tokens_to_operator_tree (pre ++ TRBrace :: post) = Err EUnmatchedRBrace.
+Proof. exact build_excess_close. Qed.
+
+(* ... and input that lacks exactly its final `)` *)
+Theorem C13_unbalanced_open_exact : forall (ts : list token) (n : node),
+  tokens_to_operator_tree (ts ++ [TRBrace]) = Ok n ->
+  tokens_to_operator_tree ts = Err EUnmatchedLBrace.
+Proof. exact build_excess_open. Qed.
+
 (* ---- token preservation ---- *)
 
 (* The statement of the design,
@@ -73,6 +85,22 @@ Example C13_hypotheses_met :
   exists n, tokens_to_operator_tree ts = Ok n /\ has_bad_arity n = false /\ tokens_of_top n = ts /\
             wellformed ts = true.
 Proof. eexists. repeat split; vm_compute; reflexivity. Qed.
+
+(* the hypotheses of C13_wellformed are met by a non-trivial tree *)
+Example C13_wellformed_nonvacuous :
+  exists n, tree_ok n /\ has_bad_arity n = false /\
+            tokens_of_top n = [TIdentifier id_f; TLBrace; TInt 1; TComma; TMinus; TInt 2; TRBrace; TPlus; TInt 3;
+                               TSemicolon; TIdentifier id_a; TAssign; TLBrace; TRBrace; TSemicolon].
+Proof.
+  destruct C13_hypotheses_met as (n & H1 & H2 & H3 & _). exists n.
+  split; [exact (C13_built_tree_ok _ n H1 H2)|]. split; [exact H2|exact H3].
+Qed.
+
+(* the hypotheses of the two exact-error theorems are met *)
+Example C13_exact_nonvacuous :
+  is_ok (tokens_to_operator_tree [TLBrace; TInt 1; TRBrace]) = true /\
+  is_ok (tokens_to_operator_tree ([TLBrace; TLBrace; TInt 1; TRBrace] ++ [TRBrace])) = true.
+Proof. split; vm_compute; reflexivity. Qed.
 
 (* the ill-formed inputs of the property text: `+ 1 2`, `1 + 2 ( )`, `- 1 ( )`, `1 2`, `1 +`, `( 1`, `1 )` *)
 Example C13_rejected_examples :
